@@ -65,6 +65,25 @@ def main():
                  "return {name: arr[_mask_np] for name, arr in zip(_axis_names, _all_combis, strict=True)}"]
         if s2 != want2:
             fail(fn2, "create_combination_grid: " + " | ".join(x[:60] for x in s2))
+        # ---- create_filter_mask: which axes, in which order ------------------------------------------------
+        fn3 = find_func(tree, "create_filter_mask")
+        s3 = [unp(x) for x in fn3.body if not is_docstring(x)]
+        want3 = ["if subset is None:\n    subset = model.variable_info.query('is_sparse').index.tolist()",
+                 "fixed_inputs = {} if fixed_inputs is None else fixed_inputs",
+                 "_axis_names = [name for name in model.grids if name in subset]",
+                 "_filter_names = model.function_info.query('is_filter').index.tolist()",
+                 "_scalar_filter = concatenate_functions(functions=model.functions, targets=_filter_names, aggregator=jnp.logical_and)",
+                 "_filter = productmap(_scalar_filter, variables=_axis_names)",
+                 "_valid_args = set(inspect.signature(_filter).parameters.keys())",
+                 "_potential_kwargs = {**model.grids, **fixed_inputs}",
+                 "kwargs = {k: v for k, v in _potential_kwargs.items() if k in _valid_args}",
+                 "if jit_filter:\n    _filter = jax.jit(_filter)",
+                 "return _filter(**kwargs)"]
+        if s3 != want3:
+            for k, (a, b) in enumerate(zip(s3, want3)):
+                if a != b:
+                    fail(fn3, f"create_filter_mask: statement {k} changed: {a[:100]}")
+            fail(fn3, "create_filter_mask: number of statements")
         text = """(* GENERATED by translator/py2coq_idx.py from src/lcm/state_space.py — do not edit. *)
 From LCM Require Import Base.Prelude Base.Arr Base.ArrOps Model.StateSpace.
 Local Open Scope nat_scope.
@@ -79,6 +98,14 @@ Definition gen_create_combination_grid (grids : list (list Q)) (mask : arr bool)
   let all_combis := map (fun jg : nat * list Q => fun idx : list nat => nth (nth (fst jg) idx 0) (snd jg) 0%Q)
                         (combine (seq 0 (length grids)) grids) in
   map (fun arr => map arr (true_positions mask)) all_combis.
+
+(* the axes of the filter mask (create_filter_mask: the conjunction of all filters, product-mapped over
+   `_axis_names`, evaluated at the grids and the fixed inputs) and the axes of the meshgrid that
+   create_combination_grid indexes with that mask: both `[name for name in <grids> if name in <subset>]` *)
+Definition gen_filter_mask_axis_names (grid_names subset : list string) : list string :=
+  filter (fun name => mem_str name subset) grid_names.
+Definition gen_combination_grid_axis_names (grid_names subset : list string) : list string :=
+  filter (fun name => mem_str name subset) grid_names.
 """
         print("IndexersGen.v: create_indexers_and_segments, create_combination_grid")
     except (TranslationError, SyntaxError, OSError) as e:
